@@ -16,7 +16,7 @@ from props.c06_pool import POOL
 PROP = "C06"
 MC = os.path.join(ROOT, "spec/mc/MC_Transformer.tla")
 TRACE = os.path.join(ROOT, "spec/trace/Trace_C06.tla")
-ALL_SS = ["S1", "S2", "S3", "S4", "SE", "SU", "SM", "SX", "SV"]
+ALL_SS = ["S1", "S2", "S3", "S4", "S5", "S6", "SE", "SU", "SM", "SX", "SV"]
 ALL_SRC = ["D1", "D2", "DX"]
 CLASSES = {"ok", "terminated", "xpathError", "extError", "encoding", "unserializable", "missingDoc",
            "malformedSS", "invalidSS", "malformedSrc"}
@@ -28,41 +28,36 @@ def tla_set(xs):
     return "{" + ", ".join('"%s"' % x for x in xs) + "}"
 
 
-def cfg_text(c, guard_p, guard_e, check):
+def cfg_text(c, check):
     s = ["SPECIFICATION MCSpec", "CONSTANTS", "  PNames <- PoolPNames", "  PVals <- PoolPVals", "  FNames <- PoolFNames",
          "  MaxHist = %d" % c["hist"], "  MaxH = %d" % c["maxh"], "  CompileDocs = " + tla_set(c["compile"]),
          "  ParseDocs = " + tla_set(c["parse"]), "  InlineSS = " + tla_set(c["inline_ss"]), "  InlineSrc = " + tla_set(c["inline_src"]),
-         "  Vals = " + tla_set(c["vals"]), "  GuardP = %s" % ("TRUE" if guard_p else "FALSE"),
-         "  GuardE = %s" % ("TRUE" if guard_e else "FALSE"), "VIEW " + ("ViewMC" if check else "View")]
+         "  Vals = " + tla_set(c["vals"]), "VIEW " + ("ViewMC" if check else "View")]
     if check:
-        s += ["INVARIANT Refinement", "INVARIANT TypeInv", "INVARIANT ImplAgrees", "INVARIANT OracleDeterministic",
-              "INVARIANT DeviationsAreReal", "PROPERTY Sticky"]
+        s += ["INVARIANT Refinement", "INVARIANT TypeInv", "INVARIANT ImplAgrees", "INVARIANT OracleDeterministic", "PROPERTY Sticky"]
     return "\n".join(s) + "\n"
 
 
 # ------------------------------------------------------------------------------------------ histories
-def shadowed_at(ops):
-    """per op index: is some parameter's current value shadowed by an older expression string
-    (KD_paramExprShadowsValue of TransformerImpl.tla) when that op runs"""
-    expr, cur, out = {}, {}, []
+def changes_overload(ops):
+    """the history sets a parameter through the XObjectPtr / double overload while an expression string set earlier for
+    the same name is still in place, and transforms afterwards (round 1 found the new value ignored; repaired in /repo)"""
+    expr, hit = set(), False
     for op in ops:
-        out.append(any(cur.get(k) not in EXPR_VALS and cur.get(k) is not None and expr.get(k) for k in cur))
         if op["op"] == "SetParam":
             if op["v"] in EXPR_VALS:
-                expr[op["k"]] = op["v"]
-            cur[op["k"]] = op["v"]
+                expr.add(op["k"])
+            elif op["k"] in expr:
+                expr.discard(op["k"]); hit = True
         elif op["op"] == "ClearParams":
-            expr, cur = {}, {}
-    return out
-
-
-def has_shadow(ops):
-    sh = shadowed_at(ops)
-    return any(sh[i] and ops[i]["op"] == "Transform" for i in range(len(ops)))
+            expr = set()
+        elif op["op"] == "Transform" and hit:
+            return True
+    return False
 
 
 def random_history(rng, n, c):
-    """a legal call history of length n (handles live, no parameter shadowing); deeper than the TLC-exported ones"""
+    """a legal call history of length n (handles live); deeper than the TLC-exported ones"""
     ops, live_ss, live_src, nss, nsrc, expr, cur, fn = [], [], [], 0, 0, set(), {}, False
     ok_ss = [d for d in ALL_SS if d not in ("SX", "SV")]
     while len(ops) < n:
@@ -76,7 +71,7 @@ def random_history(rng, n, c):
             if d != "DX":
                 nsrc += 1; live_src.append(nsrc)
         elif r < 0.24:
-            v = rng.choice([v for v in c["vals"] if v in EXPR_VALS or "p" not in expr])
+            v = rng.choice(c["vals"])
             ops.append({"op": "SetParam", "k": "p", "v": v}); cur["p"] = v
             if v in EXPR_VALS:
                 expr.add("p")
@@ -167,32 +162,6 @@ def ops_of(ex):
     return ops
 
 
-def stale_error_events(ex):
-    """indices of the events of an execution that carry the signature of the known deviation staleErrorMessage
-    (KD_staleError* of TransformerImpl.tla): a successful compileStylesheet, or transformation of a parsed-source
-    handle, reports a non-empty getLastError() while the message buffer still holds the text of an earlier failure -
-    and the calls after it that do not touch the message (set/clear params, install/uninstall, destroy) and so keep
-    reporting it.  The buffer is followed with the transcribed rule: parseSource (also inside transform(input
-    source, ...)) empties it, compileStylesheet / doTransform only resize(1) it."""
-    out, err, stale = [], False, False
-    for i, ev in enumerate(ex):
-        e = ev["e"]
-        if e in ("Reset", "Fresh"):
-            continue
-        if e not in STATUS_CALLS:
-            if stale and ev.get("errEmpty") is False:
-                out.append(i)
-            continue
-        stale = False
-        if e == "Parse" or (e == "Transform" and ev["src"]["k"] == "i"):
-            err = ev["status"] != 0
-        elif ev["status"] != 0:
-            err = True
-        elif err and ev.get("errEmpty") is False:
-            out.append(i); stale = True
-    return out
-
-
 def nontrivial(ex):
     """a failing call followed by a succeeding Transform, or a parameter / function change between two transforms"""
     failed = seen_t = changed = False
@@ -236,11 +205,6 @@ def residue_diff(ex, k):
     return {i for i in range(len(r)) if r[i] != r0[i]}
 
 
-def mask_stale(ex):
-    idx = set(stale_error_events(ex))
-    return [dict((a, b) for a, b in ev.items() if a != "errEmpty") if i in idx else ev for i, ev in enumerate(ex)]
-
-
 def mask_objstacks(ex):
     r0 = residue0_of(ex)
     out = []
@@ -251,9 +215,9 @@ def mask_objstacks(ex):
     return out
 
 
-# known deviations that do not change what the transformer does next: the rest of such an execution is validated
-# again with exactly the deviating observation withheld
-MASKS = {"staleErrorMessage": mask_stale, "objectStackCachePositionKept": mask_objstacks}
+# a known deviation that does not change what the transformer does next (and is visible only through hook H1): the rest
+# of such an execution is validated again with exactly the deviating entries of the residue vector withheld
+MASKS = {"objectStackCachePositionKept": mask_objstacks}
 
 
 def validate(res, events, known, tag):
@@ -302,38 +266,13 @@ def validate(res, events, known, tag):
 
 
 def classify(ex, k, rj, fresh):
-    """semantic key of a rejected event (mirrors KD_* of TransformerImpl.tla), or None"""
-    ev = ex[k]
+    """semantic key of a rejected event, or None"""
     if "residue:" in rj["msg"]:
         d = residue_diff(ex, k)
         failed_before = any(e["e"] == "Transform" and e["status"] != 0 for e in ex[:k + 1])
         if d and d <= OBJ_STACKS and failed_before:
             return "objectStackCachePositionKept"
         return None
-    if k in stale_error_events(ex) and ev["e"] in STATUS_CALLS and ("getLastError" in rj["msg"] or "error message is empty" in rj["msg"]):
-        return "staleErrorMessage"
-    if ev["e"] == "Transform" and "fresh transformer returns" in rj["msg"]:
-        calls = [e for e in ex[:k + 1] if e["e"] not in ("Reset", "Fresh")]
-        ops = ops_of(ex[:k + 1])
-        if shadowed_at(ops)[-1]:
-            # the observed result must be the one of the EFFECTIVE parameters (the older expression string)
-            expr, hss, hsrc, fns = {}, {}, {}, {"f": False}
-            for c in calls[:-1]:
-                if c["e"] == "SetParam" and c["v"] in EXPR_VALS:
-                    expr[c["k"]] = c["v"]
-                elif c["e"] == "ClearParams":
-                    expr = {}
-                elif c["e"] == "Compile" and c["status"] == 0:
-                    hss[c["h"]] = c["ss"]
-                elif c["e"] == "Parse" and c["status"] == 0:
-                    hsrc[c["h"]] = c["src"]
-                elif c["e"] in ("InstallFn", "UninstallFn"):
-                    fns[c["f"]] = c["e"] == "InstallFn"
-            ss = hss[ev["ss"]["h"]] if ev["ss"]["k"] == "h" else ev["ss"]["d"]
-            src = hsrc[ev["src"]["h"]] if ev["src"]["k"] == "h" else ev["src"]["d"]
-            eff = fresh.get((ss, src, json.dumps({"p": expr.get("p", "none")}, sort_keys=True), json.dumps(fns, sort_keys=True)))
-            if eff is None or eff == (ev["status"], ev["out"]):
-                return "paramExprShadowsValue"
     return None
 
 
@@ -345,26 +284,30 @@ def constants(tier):
     """mc: design check.  gens: history exports - `life`: the full life-cycle alphabet (compile / parse / destroy / params /
     functions / transform) over the state-heavy stylesheets; `deep`: longer histories over a reduced alphabet (one or two
     compiled stylesheets, no parsed sources: the handle dimension is what makes the view count grow); `roles`: short
-    histories over every document of the pool.  kd: histories that contain the parameter shadowing."""
+    histories over every document of the pool; `vars`: one compiled S5 / S6 (failure inside the lazy evaluation of a
+    top-level variable) used repeatedly while the sticky parameter changes.  kd: small alphabet with all three
+    setStylesheetParam overloads, of which the histories that switch from the expression to a value overload are kept."""
     if tier == "quick":
         mc = dict(hist=6, maxh=1, compile=["S2", "S3", "SX"], parse=["D1", "D2", "DX"], inline_ss=ALL_SS, inline_src=ALL_SRC, vals=["str", "num"])
         gens = [("life", dict(mc, hist=4, inline_ss=RICH + ["SX"])),
                 ("deep", dict(mc, hist=6, compile=["S2"], parse=[], inline_ss=RICH + ["SV"], inline_src=["D1", "D2"])),
-                ("roles", dict(mc, hist=3, maxh=0))]
+                ("roles", dict(mc, hist=3, maxh=0)),
+                ("vars", dict(mc, hist=5, compile=["S5", "S6"], parse=[], inline_ss=["S5", "S6", "S1"], inline_src=["D1"]))]
         kd = dict(mc, hist=4, compile=["S3"], parse=["D1"], inline_ss=["S1", "S2", "S4"], inline_src=["D1"], vals=["str", "num", "obj"])
     else:
         mc = dict(hist=6, maxh=2, compile=["S2", "S3", "S4", "SX"], parse=["D1", "D2", "DX"], inline_ss=ALL_SS, inline_src=ALL_SRC, vals=["str", "num", "obj"])
         gens = [("life", dict(mc, hist=5, maxh=1, inline_ss=RICH + ["SX", "SM"], vals=["str", "num"])),
                 ("life2", dict(mc, hist=5, maxh=2, compile=["S2", "S3"], parse=["D1", "D2"], inline_ss=["S2", "S3"], inline_src=["D1", "D2"], vals=["str", "num"])),
                 ("deep", dict(mc, hist=8, maxh=1, compile=["S2", "S3"], parse=[], inline_ss=RICH + ["SV", "SM"], inline_src=["D1", "D2"])),
-                ("roles", dict(mc, hist=4, maxh=0))]
+                ("roles", dict(mc, hist=4, maxh=0)),
+                ("vars", dict(mc, hist=7, maxh=1, compile=["S5", "S6"], parse=["D1"], inline_ss=["S5", "S6", "S1", "S2"], inline_src=["D1", "D2"]))]
         kd = dict(mc, hist=5, maxh=1, compile=["S3"], parse=["D1"], inline_ss=["S1", "S2", "S4"], inline_src=["D1"])
     return mc, gens, kd
 
 
-def gen_histories(wd, name, c, guard_p, timeout):
+def gen_histories(wd, name, c, timeout):
     cfg = os.path.join(wd, name + ".cfg")
-    open(cfg, "w").write(cfg_text(c, guard_p, False, False))
+    open(cfg, "w").write(cfg_text(c, False))
     dump = os.path.join(wd, name)
     r = vlib.tlc(MC, cfg, workers=1, name="c06" + name, timeout=timeout, extra=["-dump", dump, "-noGenerateSpecTE"])
     if not r["ok"]:
@@ -385,12 +328,12 @@ def run(res, tier, seed):
     # ---- MC: the design (known deviations kept out, and shown real); concurrently
     # ---- GEN: histories without parameter shadowing (several alphabets), and histories that contain it
     cfg = os.path.join(wd, "mc.cfg")
-    open(cfg, "w").write(cfg_text(mcc, True, True, True))
+    open(cfg, "w").write(cfg_text(mcc, True))
     t0 = time.time()
     with ThreadPoolExecutor(max_workers=len(gens) + 2) as pool_:
         fmc = pool_.submit(vlib.tlc_mc, MC, cfg, name="c06mc", timeout=1500, extra=["-noGenerateSpecTE"], workers=max(2, vlib.NCPU // 2))
-        fg = [(name, c, pool_.submit(gen_histories, wd, "gen_" + name, c, True, 1500)) for name, c in gens]
-        fkd = pool_.submit(gen_histories, wd, "gen_kd", kdc, False, 600)
+        fg = [(name, c, pool_.submit(gen_histories, wd, "gen_" + name, c, 1500)) for name, c in gens]
+        fkd = pool_.submit(gen_histories, wd, "gen_overloads", kdc, 600)
         r = fmc.result()
         res.add_mc(r, "MC_Transformer hist<=%d handles<=%d" % (mcc["hist"], mcc["maxh"]))
         classes, pools, res.notes["gen"] = set(), [], {}
@@ -400,8 +343,8 @@ def run(res, tier, seed):
             pools.append(hs)
             res.notes["gen"][name] = {"views": rg["distinct"], "histories": len(hs), "MaxHist": c["hist"], "MaxH": c["maxh"],
                                       "stylesheets": len(set(c["inline_ss"]) | set(c["compile"])), "values": c["vals"]}
-        hsB = [h for h in fkd.result()[0] if has_shadow(h)]
-    res.notes["gen"]["param_shadow"] = {"histories": len(hsB)}
+        hsB = [h for h in fkd.result()[0] if changes_overload(h)]
+    res.notes["gen"]["overload_change"] = {"histories": len(hsB)}
     pools.append(hsB)
     missing = CLASSES - classes
     if missing:
@@ -466,7 +409,7 @@ def run(res, tier, seed):
         "the XSLT engine is an uninterpreted deterministic function in MC_Transformer; what it returns on the real code is learned from Fresh events (same call on a newly constructed transformer in the same process), never predicted",
         "the role of each pool document (which outcome class it produces) is checked against the status of every Fresh event",
         "process-global state shared by all transformers (function tables, ICU) is outside the comparison: a leak there affects the fresh transformer alike",
-        "histories that set a parameter through the XObjectPtr/double overload after an expression string (known finding paramExprShadowsValue) are generated separately and end at the first deviating Transform"]
+        "the two deviations found in round 1 (parameter value shadowed by an older expression string, stale error message) are repaired in /repo: no special handling, a recurrence is a violation"]
     if not os.environ.get("VERIF_KEEP"):
         shutil.rmtree(wd, ignore_errors=True)
 
